@@ -105,7 +105,11 @@ pub fn observe_filter(
         Ok(Ok(a)) => a,
     };
     let j = serde_json::to_value(&ast).unwrap_or(Value::Null);
-    let tagged = tagjson::logical(&j);
+    let mut tagged = tagjson::logical(&j);
+    if json_depth(&tagged) > 120 {
+        // TLC's JSON reader refuses documents nested deeper than 255 levels
+        tagged = json!({"c": "deep"});
+    }
     let mut u = Vec::new();
     for f in uses {
         let a = ast.uses(f);
@@ -268,5 +272,49 @@ pub fn observe_value(
         ast: tagged,
         runs,
         uses: u,
+    }
+}
+
+/// One alias/layout variant for the canonicity check (C07): verdict, tagged AST JSON, the
+/// serialized text, std hash of the AST, equality with the first variant, re-serialization.
+pub fn observe_canon(
+    w: &World,
+    sch: usize,
+    max: u16,
+    src: &str,
+    first: &mut Option<wirefilter::FilterAst>,
+) -> Value {
+    use std::hash::{Hash, Hasher};
+    let parser = w.parser(sch, max);
+    let parsed = catch_unwind(AssertUnwindSafe(|| parser.parse(src).map_err(|e| e.to_string())));
+    match parsed {
+        Err(_) => json!({"src": src, "ok": false, "out": "panic"}),
+        Ok(Err(_)) => json!({"src": src, "ok": false, "out": "err"}),
+        Ok(Ok(ast)) => {
+            let j = serde_json::to_value(&ast).unwrap_or(Value::Null);
+            let text = serde_json::to_string(&ast).unwrap_or_default();
+            let text2 = serde_json::to_string(&ast.clone()).unwrap_or_default();
+            let mut h = std::collections::hash_map::DefaultHasher::new();
+            ast.hash(&mut h);
+            let hv = h.finish() as i64;
+            let eq = match first {
+                Some(f) => *f == ast,
+                None => true,
+            };
+            if first.is_none() {
+                *first = Some(ast);
+            }
+            json!({"src": src, "ok": true, "out": "ok", "ast": tagjson::logical(&j),
+                   "json": text.as_bytes().len() as u64, "jsontext": text, "hash": limbs(hv),
+                   "eq": eq, "stable": text == text2})
+        }
+    }
+}
+
+pub fn json_depth(v: &Value) -> usize {
+    match v {
+        Value::Array(a) => 1 + a.iter().map(json_depth).max().unwrap_or(0),
+        Value::Object(o) => 1 + o.values().map(json_depth).max().unwrap_or(0),
+        _ => 0,
     }
 }
